@@ -686,3 +686,174 @@ func argsGoToFmtOnly(c *Ctx, va ssa.Value, depth int) string {
 	}
 	return ""
 }
+
+// ---- a range variable whose address outlives its iteration (module language version < 1.22) ---------------------
+
+// checkLoopVarEscapes: with the per-loop variable semantics of the module's Go version, the address of a range
+// variable that escapes the iteration (captured by a closure that is kept, taken as a pointer receiver) is shared by
+// all iterations: every holder ends up looking at the LAST element.
+func checkLoopVarEscapes(c *Ctx, r *Report, rule string, pkgs []string) {
+	bad := 0
+	for _, fn := range c.LibFns {
+		if fn.Pkg == nil {
+			continue
+		}
+		if len(pkgs) > 0 {
+			in := false
+			for _, q := range pkgs {
+				if strings.HasSuffix(fn.Pkg.Pkg.Path(), "/"+q) {
+					in = true
+				}
+			}
+			if !in {
+				continue
+			}
+		}
+		allInstrs(fn, func(in ssa.Instruction) {
+			st, ok := in.(*ssa.Store)
+			if !ok {
+				return
+			}
+			a, ok := st.Addr.(*ssa.Alloc)
+			if !ok || !a.Heap || !inLoop(st.Block()) || inLoop(a.Block()) {
+				return
+			}
+			// the stored value is the element the range statement hands out
+			isElem := false
+			switch v := st.Val.(type) {
+			case *ssa.Extract:
+				_, isElem = v.Tuple.(*ssa.Next)
+			case *ssa.UnOp:
+				if ia, ok := v.X.(*ssa.IndexAddr); ok && v.Op == token.MUL && rangeHeader(ia.Index) != nil {
+					isElem = true
+				}
+			}
+			if !isElem {
+				return
+			}
+			// escaping uses inside the loop: captured by a closure, or its address (or a field's address) handed on
+			esc := ""
+			for _, ref := range *a.Referrers() {
+				ri, ok := ref.(ssa.Instruction)
+				if !ok || !inLoop(ri.Block()) {
+					continue
+				}
+				switch x := ref.(type) {
+				case *ssa.MakeClosure:
+					esc = "captured by a function literal"
+				case *ssa.FieldAddr:
+					for _, r2 := range *x.Referrers() {
+						if ci, ok := r2.(ssa.CallInstruction); ok && resultMayRetain(ci) {
+							for _, arg := range ci.Common().Args {
+								if arg == ssa.Value(x) {
+									esc = "the address of its field is the receiver / argument of " + describeCall(c, ci)
+								}
+							}
+						}
+					}
+				case ssa.CallInstruction:
+					if !resultMayRetain(x) {
+						continue
+					}
+					for _, arg := range x.Common().Args {
+						if arg == ssa.Value(a) {
+							esc = "its address is handed to " + describeCall(c, x)
+						}
+					}
+				}
+			}
+			if esc == "" {
+				return
+			}
+			bad++
+			r.Bad(rule, fmt.Sprintf("%s range variable %s#%d", shortFn(fn), a.Comment, bad), c.Pos(st.Pos()), fmt.Sprintf("the range variable %s is one variable for the whole loop (language version of the module < 1.22) and its address outlives the iteration (%s): everything built from it in earlier iterations ends up referring to the last element", a.Comment, esc))
+		})
+	}
+	if bad == 0 {
+		r.OK(rule, "range variables", "-", "no range variable's address outlives its iteration")
+	}
+}
+
+// resultMayRetain: the call hands back something that can keep a reference to what it was given (a function value,
+// a pointer, an interface, a slice or a map), or is a go / defer statement.
+func resultMayRetain(ci ssa.CallInstruction) bool {
+	if _, isCall := ci.(*ssa.Call); !isCall {
+		return true
+	}
+	res := ci.Common().Signature().Results()
+	for i := 0; i < res.Len(); i++ {
+		switch res.At(i).Type().Underlying().(type) {
+		case *types.Signature, *types.Pointer, *types.Interface, *types.Slice, *types.Map:
+			if !isErrorType(res.At(i).Type()) {
+				return true
+			}
+		}
+	}
+	return false
+}
+
+// ---- C16/C07: the child process a transport starts is the one its Close kills -------------------------------------
+
+// checkChildStored: every exec.Command the transport package creates is stored into a field of the transport object:
+// Close signals the process it finds there, and a command held only in a local is never signalled -- a read blocked on
+// its pty stays blocked after Close.
+func checkChildStored(c *Ctx, r *Report, rule string) {
+	n := 0
+	for _, fn := range c.LibFns {
+		if fn.Pkg == nil || fn.Pkg.Pkg.Path() != modPath+"/transport" {
+			continue
+		}
+		k := 0
+		for _, ci := range callInstrs(fn) {
+			call, ok := ci.(*ssa.Call)
+			if !ok {
+				continue
+			}
+			o := CalleeObj(call)
+			if o == nil || o.Pkg() == nil || o.Pkg().Path() != "os/exec" || !strings.HasPrefix(o.Name(), "Command") {
+				continue
+			}
+			n++
+			k++
+			construct := fmt.Sprintf("%s child command#%d is kept in the transport", shortFn(fn), k)
+			stored := false
+			var visit func(v ssa.Value, depth int)
+			visit = func(v ssa.Value, depth int) {
+				if depth > 3 {
+					return
+				}
+				for _, ref := range *v.Referrers() {
+					switch x := ref.(type) {
+					case *ssa.Store:
+						if x.Val == v {
+							if _, isField := x.Addr.(*ssa.FieldAddr); isField {
+								stored = true
+							}
+							if a, isAlloc := x.Addr.(*ssa.Alloc); isAlloc {
+								// a local that is later copied into the field
+								for _, r2 := range *a.Referrers() {
+									if u, ok := r2.(*ssa.UnOp); ok {
+										visit(u, depth+1)
+									}
+								}
+							}
+						}
+					case *ssa.Phi:
+						visit(x, depth+1)
+					case *ssa.Return:
+						stored = true // handed to the caller, which is checked in its turn
+					}
+				}
+			}
+			visit(call, 0)
+			if stored {
+				r.OK(rule, construct, c.Pos(call.Pos()), "stored in a field of the transport (or returned to the function that does)")
+			} else {
+				r.Bad(rule, construct, c.Pos(call.Pos()), "the command is started but never stored in the transport: Close has no process to signal, so the ssh child survives the close and a read that was blocked on its pty stays blocked")
+			}
+		}
+	}
+	if n == 0 {
+		r.Unk(rule, "child commands", "-", "the transport package starts no command")
+	}
+}
